@@ -59,9 +59,16 @@ def nm_of(s):
     return max(m["n"] * m["m"] for m in s["sc"]["members"])
 
 
+def cache_edit(s):
+    """statements whose CACHED encodings (of a commitment, of a generator) were edited away from the points they belong to: the trace
+    specifications compare with the encodings of the points, so these are left to the API-level stages"""
+    return any(m["v"]["commit"] == "cache" or m["v"]["pgH"] == 2 or m["v"]["pgG"] == 200 for m in s["sc"]["members"])
+
+
 def verifies(s):
-    """scenarios whose verify_batch call is reached with decodable proofs"""
-    return s["expect"]["prove"] == "ok" and all(m["mut"]["kind"] not in ("bytes",) and m["mut"]["how"] != "noncanon" for m in s["sc"]["members"])
+    """scenarios whose verify_batch call is reached with decodable proofs (and whose traces can be compared: see cache_edit)"""
+    return (s["expect"]["prove"] == "ok" and all(m["mut"]["kind"] not in ("bytes",) and m["mut"]["how"] != "noncanon" for m in s["sc"]["members"])
+            and not cache_edit(s))
 
 
 def reaches_msm(s):
@@ -170,6 +177,9 @@ def run_C03(tier, seed):
 
 def run_C05(tier, seed):
     res = [stages.api_stage("C05", "alter", tier, seed)]
+    # the unaltered triple is verified first and the altered one right after it, in the same process (nothing remembered from the first
+    # call may excuse the second)
+    res.append(stages.api_stage("C05", "bind", tier, seed))
     # the same alterations inside batches: a member that disagrees on a generator, bit length or degree, at any position
     dis = lambda s: any(m["v"]["pgH"] != 0 or m["v"]["pgG"] != 0 or m["v"]["n"] != s["sc"]["members"][0]["v"]["n"] or m["v"]["t"] != s["sc"]["members"][0]["v"]["t"] for m in s["sc"]["members"])
     res.append(stages.api_stage("C05", "batch", tier, seed, groups=("fm",), filter_fn=dis))
@@ -461,7 +471,8 @@ def run_C09(tier, seed):
     # batches of 21-40 members mixing aggregated, seeded (either seed, either side) and plain members: masks exact and aligned
     res.append(stages.api_stage("C09", "long", tier, seed))
     big = stages.api_stage("C09", "batch", tier, seed, groups=("rist",), scale="2:256", scale_min=0, limit=40 if q else 400,
-                           filter_fn=lambda s: s["sc"]["mode"] == "RecoverAndVerify" and s["expect"]["verify"] == "ok" and "exact" in s["expect"]["masks"])
+                           filter_fn=lambda s: s["sc"]["mode"] == "RecoverAndVerify" and s["expect"]["verify"] == "ok" and "exact" in s["expect"]["masks"],
+                           must_fn=lambda s: len(s["sc"]["members"]) >= 5)          # (always: batches of three chunks and more)
     big.name = "api:batch@256"
     res.append(big)
     return res
